@@ -236,6 +236,7 @@ func (p *Prog) generateOne(fn *ssa.Function, sp *spec.FuncSpec, splits []splitVa
 	vc.typedPtrs = sp.TypedPtrs
 	vc.wfHeap = sp.WFHeap
 	vc.namedInv = sp.NamedInv
+	vc.mapCardOn = sp.MapCard
 	vc.reveal = map[string]bool{}
 	for _, r := range sp.Reveal {
 		vc.reveal[r] = true
